@@ -1056,6 +1056,14 @@ class Executor:
         if z3.is_false(cs):
             else_fn(st)
             return
+        if getattr(self, "prune", False):
+            # focus runs: drop a branch the entry assumptions already exclude (a refutation by the solver; `unknown` keeps it)
+            if self._infeasible(st, cs):
+                else_fn(st)
+                return
+            if self._infeasible(st, z3.Not(cs)):
+                then_fn(st)
+                return
         a = st.fork()
         a.assume(cs)
         then_fn(a)
@@ -1068,6 +1076,19 @@ class Executor:
             return
         j = join(alive)
         self.become(st, j)
+
+    def _infeasible(self, st: State, c) -> bool:
+        sol = z3.Solver()
+        sol.set("timeout", 400)
+        for h in self.w.axioms:
+            sol.add(h)
+        for h in st.pc:
+            sol.add(h)
+        sol.add(c)
+        try:
+            return sol.check() == z3.unsat
+        except z3.Z3Exception:
+            return False
 
     def become(self, st: State, j: State):
         st.env, st.bound, st.heap, st.ghost, st.pc, st.nalloc = j.env, j.bound, j.heap, j.ghost, j.pc, j.nalloc
@@ -1388,6 +1409,8 @@ class Executor:
         else:
             self.assume_allocated(st, res.t)
         for eid, es in list(c.ensures.items()) + list(c.assumed_ensures.items()):
+            if any(eid.startswith(p) for p in c.private):
+                continue  # proved for the body, not exported to callers (they would only carry it along as dead weight)
             ctx = SpecCtx(self, old=pre, cur=st, names={**bind, "result": res}, module=cmod)
             st.assume(ctx.eval_bool(es))
         for eid in c.assumed_ensures:
